@@ -2,5 +2,6 @@ SPECIFICATION Spec
 CONSTANTS
   Depths = {10, 1001, 10000, 100000, 1000000}
   ParserDepths = {300000}
+  CounterDepths = {255, 256, 257, 65534, 65535, 65536, 65537, 131073}
   Variants = {"closed", "open", "half"}
 CHECK_DEADLOCK FALSE
